@@ -47,6 +47,15 @@ def g_any(rng, tier):
         return gen.gen_cf_case(rng, max_ops=8, warm=True)
     return gen.gen_ctx_case(rng, max_ops=6, warm=True)
 
+def g_c04(rng, tier):
+    return REL.gen_c04(rng, tier, lints_nbhd=False)
+
+def g_c05(rng, tier):
+    c = gen.gen_ctx_case(rng, nps=["radius", "knearest", "lsh", "clusters"], max_ops=5, fit_prob=0.15)
+    c["n_jobs"] = rng.choice([1, 2, 3])
+    c["backend"] = "threading"
+    return c
+
 def g_c08(rng, tier):
     """long histories dense in arm changes (single add/remove and remove+add swaps between queries)"""
     big = 14 if tier == "quick" else 30
@@ -99,6 +108,23 @@ PROPS = {
     "C03": {"gen": g_c03, "fields": ("out", "arms", "nhist"), "functional": True, "n": (300, 5000), "relations": [],
             "rule": "Radius/KNearest over every learning policy on integer grids, radii on exact distances, fit + partial_fit*, arm changes; "
                     "non-trivial = >= 1 query answered; distinct by case hash"},
+    "C04": {"gen": g_c04, "fields": ("out", "arms", "cold", "status"), "functional": False, "n": (120, 1500),
+            "relations": [], "batch": ("fresh_interpreters", REL.gen_c04, REL.run_c04_batch, (150, 1500)),
+            "rule": "scripted scenarios over every policy combination (string/int/float labels, default-constructed policy tuples, warm starts with exact distance ties); "
+                    "each scenario digest (all predict / predict_expectations outputs) is computed in four fresh interpreters: PYTHONHASHSEED 0, 1, random, and one that "
+                    "constructs, trains and queries five other bandits with other seeds before and between the calls; the correspondence compares the randomness trace "
+                    "(every generator request) with the model; non-trivial = scenario with >= 1 query"},
+    "C18": {"gen": g_any, "fields": ("out", "arms"), "functional": False, "n": (100, 1000),
+            "relations": [("containers_and_snapshots", REL.gen_c18, REL.run_c18, (250, 3000))],
+            "rule": "the same history passed as lists (reference), C- / Fortran-ordered float arrays, int64 arrays, pandas Series (incl. the single-feature / single-row "
+                    "disambiguation), DataFrames and non-contiguous strided views; byte snapshots of every caller object (data, arms list, tree_parameters, arm features) "
+                    "before and after each call; arm-list aliasing probe; non-trivial = >= 1 call compared"},
+    "C05": {"gen": g_c05, "fields": ("out", "arms", "nhist", "lsh", "leaves"), "functional": False, "n": (120, 1500),
+            "relations": [("njobs_backend_rows_order", REL.gen_c05, REL.run_c05, (140, 2500))], "pre": "partition_table",
+            "rule": "_partition_contexts / _effective_jobs compared exhaustively with the extracted model for n <= 300 (quick) / 2000 (thorough) x n_jobs in -20..40; "
+                    "correspondence cases run with n_jobs in {1,2,3} (threading) so that the model's chunk semantics (one deep copy of the policy per chunk) is exercised; "
+                    "relation: n_jobs in {2,3,n,n+1,-1,-2,64} x backend vs n_jobs=1, _predict_contexts whole batch vs row by row, per-arm fit tasks in permuted order; "
+                    "non-trivial = >= 1 query answered"},
     "C06": {"gen": g_any, "fields": ("out", "arms", "cfexp", "stats", "nhist", "lsh", "beta"), "functional": False, "n": (150, 2000),
             "relations": [("batch_vs_chunked", REL.gen_c06, REL.run_c06, (300, 6000))],
             "rule": "one row sequence trained by a single fit and by fit + partial_fit on a random split into consecutive chunks (1-row chunks, "
@@ -288,6 +314,33 @@ def run_relations(prop, spec, tier, seed, stats, samples, distinct, dist, findin
             still = F.replay_witness(f)
             if still:
                 known_lines.append("KNOWN-FINDING: property=%s %s" % (prop, f["text"]))
+    if spec.get("pre") == "partition_table" and tag == "rel":
+        nchk, bad = REL.partition_table_check(300 if tier == "quick" else 2000)
+        stats["rel_cases"] += nchk
+        dist["partition_table_entries"] = nchk
+        distinct.add("partition-table-%d" % nchk)
+        for b in bad[:3]:
+            stats["rel_fail"] += 1
+            fails.append({"relation": "partition_table", "info": {"why": "_partition_contexts/_effective_jobs differ from the model or are not an exact cover"}, "input": b})
+    if spec.get("batch") and tag == "rel":
+        name, g, runb, nn = spec["batch"]
+        n = budget(tier, *nn)
+        rng = random.Random("%s-batch-%d" % (prop, seed))
+        cases = [g(rng, tier) for _ in range(n)]
+        stats["rel_cases"] += 4 * n
+        for c in cases:
+            distinct.add("b" + check_hash(c))
+        dist["batch_scenarios"] = n
+        for idx, why in runb(cases, tier)[:3]:
+            t = cases[idx] if idx >= 0 else {}
+            fid = finding_for(prop, findings, {"why": why}, {"base": t})
+            if fid:
+                stats["known_hits"] += 1
+                continue
+            stats["rel_fail"] += 1
+            fails.append({"relation": name, "info": {"why": why}, "input": strip(t) if t else None})
+        if len(samples) < 4 and cases:
+            samples.append({"relation": name, "input": abbreviate(cases[0])})
     for name, g, run, nn in spec["relations"]:
         n = int(budget(tier, *nn) * scale)
         rng = random.Random("%s-%s-%s-%d" % (prop, tag, name, seed))
